@@ -108,13 +108,15 @@ def index_origins(ctx, fid):
 
 def leads_to_err(body, start):
     """Does the edge into `start` reject unconditionally: following straight-line code (no further branch) from
-    `start`, `_0 = Err(..)` is assigned?"""
+    `start`, `_0 = Err(..)` is assigned (or the residual of a `?` is written into it)?"""
     b = start
     for _ in range(16):
         for st in body.blocks[b]["stmts"]:
             if st["k"] == "assign" and st["place"]["l"] == 0 and st["rv"]["k"] == "aggregate" and st["rv"].get("variant") == "Err":
                 return True
         t = body.term(b)
+        if t and t["k"] == "call" and t["func"].get("declared") == "std::ops::FromResidual::from_residual" and t["dest"]["l"] == 0 and not t["dest"]["p"]:
+            return True
         if not t or t["k"] in ("switch", "return", "unreachable"):
             return False
         nxt = body.succs(b)
@@ -124,7 +126,7 @@ def leads_to_err(body, start):
     return False
 
 
-def examined_origins(ctx, fid):
+def examined_origins(ctx, fid, _depth=0):
     """Origins of values that validate compares / bounds-checks with a rejecting edge."""
     body = ctx.body(fid)
     out = []   # (origins, span, how)
@@ -168,6 +170,12 @@ def examined_origins(ctx, fid):
         for x in switch_after(local, b):
             if any(leads_to_err(body, s) for s in body.succs(x)):
                 return True
+        # `helper(..)?`: the result goes through Try::branch, whose Break edge writes the residual into the return place
+        for x, t in body.calls():
+            if t["func"].get("declared") == "std::ops::Try::branch" and any(r[:2] == ("call", b) for (r, p) in body.trace_operand(t["args"][0], through={})):
+                for y in switch_after(t["dest"]["l"], x):
+                    if any(leads_to_err(body, s) for s in body.succs(y)):
+                        return True
         return bool_rejecting(local, b, idx)
 
     def some_and(b):
@@ -271,6 +279,16 @@ def examined_origins(ctx, fid):
                     out.append((body.trace_operand(t["args"][1]), t["sp"], "checked get()"))
                     item = {(r, tuple(p) + ("[]",)) for (r, p) in body.trace_operand(t["args"][0])}
                     predicate(body.term(x)["args"][1], item, "is_some_and")
+        elif _depth < 2 and ctx.has_fn(mir.callee(t) or "") and ctx.fns[mir.callee(t)]["kind"] != "closure" and "Result<" in t["dest"]["ty"] and rejecting(dest, b):
+            # a checking helper of the same crate (`check_reg_is_set(&table, i, x)?`): what it examines of its parameters is examined here
+            for (tr, sp, how) in examined_origins(ctx, mir.callee(t), _depth + 1):
+                lifted = set()
+                for (r, p) in tr:
+                    if r[0] == "arg" and r[1] - 1 < len(t["args"]):
+                        for (r2, p2) in body.trace_operand(t["args"][r[1] - 1]):
+                            lifted.add((r2, tuple(p2) + tuple(p)))
+                if lifted:
+                    out.append((lifted, sp, how if not how.startswith("lookup") else how + " (in %s)" % mir.last_seg(mir.callee(t))))
         elif dec in SEARCH_ADAPTORS and len(t["args"]) == 2 and rejecting(dest, b):
             # `xs.iter().find(|&&o| o >= n)` / any / all / position with a rejecting edge on the result
             clos = t["args"][1]
@@ -569,7 +587,12 @@ def rule_g3(ctx):
                     srcs = body.deep_sources(st["rv"]["l"], 6) | body.deep_sources(st["rv"]["r"], 6)
                     has_inputs = any(r == ("arg", inputs_arg) for (r, p) in srcs)
                     has_decl = any(r == SELF1 and p and p[0] in ("input_regs", "input_gates") for (r, p) in srcs)
-                    per_party = any(r == SELF1 and p and p[0] in ("input_regs", "input_gates") and "[]" in p for (r, p) in srcs)
+                    per_party = any(r == SELF1 and p and p[0] in ("input_regs", "input_gates") and any(x.startswith("[") for x in p) for (r, p) in srcs)
+                    # ... also when the declared count is read with an index expression `self.input_regs[p]` (Vec: a call of Index::index)
+                    for (r, p) in srcs:
+                        if r[0] == "call" and mir.last_seg(str(r[2])) in ("index", "get", "get_unchecked") and \
+                                any(r2 == SELF1 and p2 and p2[0] in ("input_regs", "input_gates") for (r2, p2) in body.deep_sources(body.term(r[1])["args"][0], 3)):
+                            per_party = True
                     if has_inputs and has_decl:
                         (bits_cmp if per_party else party_cmp).append(b)
         # first index into inputs
